@@ -40,9 +40,46 @@ PROPS["C05"] = {
     ],
 }
 
+PROPS["C02"] = {
+    "lean_modules": ["EcModel.Props.C02"],
+    "harness": ["c02"],
+    "drivers": {"c02": "drv_micro"},
+    "t1_facts": ["FrameState", "transition"],
+    "modelled": "every status / marker / counter / buffer access of src/pdu_loop/** at yield-site granularity (Micro.lean) and the "
+                "status protocol as a token automaton (Lifecycle.lean): claim_created, mark_sendable, CreatedFrame::drop, claim_sending, "
+                "mark_sent, release_sending_claim, claim_receiving, mark_received, ReceiveFrameFut::{poll,release}, ReceivedFrame::drop",
+    "rule": "plans of 1-3 application threads (1-2 requests each: alloc, 1-3 pushes, mark_sendable, poll until complete, read via "
+            "first_pdu/iterator/views incl. a nested request while a view is held), one TX thread (claim + send ok/partial/error) and "
+            "one RX thread (genuine responses, duplicates, noise) over 1/2/4 slots; 1-4 baton schedules per plan (random thread choice "
+            "with bursts of 0-40 steps, weights against pure spinning), every step = code between two yield sites of the real code; "
+            "after EVERY step the full storage snapshot (state, marker, used, bytes of every slot, both counters) is hashed and compared "
+            "with the Lean micro-step model replaying the same schedule; monitors on the real run: access windows derived from the "
+            "status accesses never overlap, no panic, every slot free after all handles are dropped. non-trivial = a response was "
+            "accepted in the run; distinct = distinct (plan, schedule)",
+    "assumptions": [
+        "sequentially consistent interleavings at yield-site granularity (one thread runs at a time); memory Ordering arguments, "
+        "compiler reordering and tearing of buffer bytes are not modelled",
+        "buffer accesses occur only between a party's claim and release status accesses (true by code structure; not extracted)",
+        "deadline expiry / abandonment while TX or RX is inside the buffer is C06's window (Safe hypothesis of inv_reach)",
+    ],
+}
+
 NOT_APPLICABLE = {}
 
 MANIFEST_TEXT = {
+    "C02": {
+        "text": "The slot status protocol is a token automaton whose events are exactly the status-access sites regenerated from "
+                "/repo (events_match_sites: function, compare-exchange vs store, from/to). inv_step / inv_reach: for EVERY sequence of "
+                "events by any number of parties that does not abandon inside the TX/RX window, the status word determines who holds "
+                "which handle; mutual_exclusion (at most one party may touch the buffer), no_realloc_while_held, lifecycle_order "
+                "(every change is an edge of the documented lifecycle). micro_status_steps_are_sites ties the executable micro-step "
+                "model to the sites; the micro-step model is diffed against the real code after every shared access under controlled schedules.",
+        "note": "Trusted: Lean kernel; the hand translation of which handle may perform which status access (Rust ownership) and of "
+                "the micro-steps (validated by per-step snapshot comparison on the schedules run); sequential consistency only. "
+                "Abandonment inside the window is excluded here (property says so) and shown to break the invariant by "
+                "abandon_inside_counterexample (C06).",
+        "technique": "Lean 4 proof (invariant over all event sequences of a token automaton tied to extracted sites) + schedule-controlled differential correspondence",
+    },
     "C05": {
         "text": "Theorems for every byte list and every storage state (any slot count/contents): rx_total (no panic branch "
                 "reachable), rx_cases (complete characterisation: either nothing changes or exactly the first slot in Sent whose "
@@ -67,20 +104,6 @@ MANIFEST_TEXT = {
     },
 }
 
-
-if __name__ == "__main__":
-    import sys
-    if "--targets" in sys.argv:
-        seen = []
-        for pid, cfg in PROPS.items():
-            for m in cfg["lean_modules"]:
-                if m not in seen:
-                    seen.append(m)
-            for k in cfg.get("harness", []):
-                d = cfg.get("drivers", {}).get(k, "drv_" + k)
-                if d not in seen:
-                    seen.append(d)
-        print(" ".join(seen))
 
 PROPS["C18"] = {
     "lean_modules": ["EcModel.Props.C18"],
@@ -203,7 +226,7 @@ PROPS["C17"] = {
         "Port.number is written only by Ports::new (T1 check), so Port::index() is the identity on array slots (port_index_total)",
         "build configuration without log/defmt: fmt::debug! evaluates its arguments (debug_print_ports calls topology())",
         "parent_is_true_parent_partial: no junction inside a non-last branch of another junction; no 32-bit wrap between the latches of one DC device",
-        "chain_delay_exact_partial: all devices DC capable, pd(upstream) = return delay(downstream) on every hop, no wrap, loop < 2^32 ns",
+        "chain_delay_exact_partial: DC-capable devices contiguous in frame order (non-DC only before the first / after the last), pd(upstream) = return delay(downstream) on every hop, no intra-device wrap",
         "inconsistent_is_error_partial: every device reports >= 1 open port; the one remaining panic site is named in the conclusion",
         "offset_formula in checked builds presupposes that configure_dc returned (i64 overflow panics are a known finding)",
     ],
@@ -285,8 +308,13 @@ PROPS["C19"] = {
             "through the macro's own parse_struct/parse_enum (sources included by #[path]) and must be rejected with the error the "
             "model predicts; every in-crate derived type nameable from the hook verif::wire is unpacked (and repacked) on random "
             "buffers. Every answer is diffed with the Lean model and checked by an independent bit-level reference packer/unpacker "
-            "driven by the same layout description. non-trivial = struct with >= 2 non-skipped fields of which one is not byte "
-            "aligned, or enum with alternatives/catch-all/default; distinct = distinct case line",
+            "driven by the same layout description. Sizes: ~430 subjects per quick run (~95 random top-level structs, 50 enums, "
+            "10 array/tuple subjects, every nested struct/enum as its own subject, 90 fixed corpus subjects), ~3000 per thorough "
+            "run in batches of 700 per compilation; 1/8 of writable structs #[repr(C, packed)], 1/8 of structs and 1/6 of enums "
+            "compiled as a Write-only + Read-only pair of derives, types with non-u8 arrays as Read-only derives; 260 (thorough "
+            "2500) random mutations of valid declarations + 60 fixed invalid declarations through the macro's parse functions. "
+            "non-trivial = value-level case whose subject is a struct with >= 2 non-skipped fields of which at least one does "
+            "not start or end on a byte boundary, or an enum with alternatives/catch-all/default; distinct = distinct case line",
     "assumptions": [
         "field widths >= 1 bit (the property's quantifier; `bits = 0` fields are accepted by the macro and are degenerate)",
         "field types obey the trait laws (Lawful: proved for u8..u64, i8..i64, bool and closed under struct nesting) and are not "
@@ -588,7 +616,8 @@ MANIFEST_TEXT["C03"] = {
             "alloc_fails_only_if_full (+ converse), created_drop_releases, drain_restores_capacity (after ANY history, disposing of every "
             "handle in any order leaves every slot None, then n allocations succeed and the (n+1)-th reports SwapState), capacity_exact "
             "(from any reachable world exactly n - owners further allocations succeed), no_panic_in_drop (the panic branch of "
-            "ReceivedFrame::drop is unreachable), abandon_then_stale_send_keeps_capacity. Tied to the code by diffing every result token "
+            "ReceivedFrame::drop is unreachable), abandon_then_stale_send_keeps_capacity, transition_sites_are_the_models (T1: the "
+            "extracted swap_state/set_state sites are exactly the primitives the model implements). Tied to the code by diffing every result token "
             "and slot snapshot of random and exhaustive-to-depth histories, each followed by the drain-and-reallocate probe.",
     "note": "Trusted: Lean kernel; the hand translation in Slots.lean (validated only on generated histories); harness register "
             "discipline = Rust ownership. Capacity clauses assume n | 256 (all sizes the constructor accepts). The history 'future abandoned "
@@ -614,7 +643,7 @@ PROPS["C06"] = {
             "first / allocating after every deadline x response delivered in time or after the deadline passed; abandonment plans: drop or "
             "final timeout in each of Sendable, Sending, Sent, RxBusy (oversize response), RxDone, before/after the deadline, stale send "
             "completing with ok/partial/error before or after a second request claimed the slot, second request run to completion; retry "
-            "expiry while Sending with every stale-send outcome; plus random retry-heavy histories over 1/2/4/8 slots. Every result "
+            "expiry while Sendable / Sending / RxBusy with every send outcome; plus random retry-heavy histories over 1/2/4/8 slots. Every result "
             "token (and the final snapshot) compared with the model. non-trivial = a request resolved (ok or timeout); distinct = distinct case line",
     "assumptions": [
         "sequential clauses only: whole API calls without interleaving; the clauses about expiry/abandonment while the TX or RX side is "
@@ -637,15 +666,18 @@ MANIFEST_TEXT["C06"] = {
             "usize::MAX); abandon_safe_partial (drop or final timeout with no SendableFrame outstanding: slot None, nobody refers to it, "
             "invariant kept, next allocation succeeds and returns this slot if the others are held); "
             "abandon_while_sending_keeps_capacity (abandoned in Sending: slot None, the later send's compare-exchange fails and changes no "
-            "slot, also after the slot was claimed again); retry_while_sending (retry expiry in Sending => Sendable, the stale send cannot "
-            "mark it Sent); tx_serves_every_sendable; retransmission_needs_tx_discipline_counterexample (without the TX-discipline "
-            "assumption a second claim can transmit response bytes). Tied by diffing every result token of systematic deadline/loss/poll "
+            "slot, also after the slot was claimed again); retry_while_sending (retry expiry in Sendable/Sending/RxBusy cannot "
+            "re-queue or disturb it: the poll consumes a retry and changes no slot, fix b5bf0e20); tx_serves_every_sendable; "
+            "count_needs_tx_discipline_counterexample (a deadline that expires before the TX side sent the frame consumes a retry "
+            "without a retransmission: the count clause needs its assumption); transition_sites_are_the_models (T1: the extracted "
+            "swap_state/set_state sites are exactly the model's). Tied by diffing every result token of systematic deadline/loss/poll "
             "placement plans, abandonment plans and random histories; independent monitors on transmission count/bytes, future output, "
             "later requests' results and slot states after quiescence.",
     "note": "PARTIAL by construction: only the sequential (API-call granularity) clauses are proved here, namely retry_count_table, "
             "retry_budget_sites, response_beats_deadline, ok_only_if_rxDone, never_success_without_response, timeout_progress, timeout_exact, "
             "forever_never_completes, abandon_effect, abandon_safe_partial, abandon_while_sending_keeps_capacity, retry_while_sending, "
-            "tx_serves_every_sendable (+ the counterexample showing the transmission clause needs its TX assumption). The concurrency "
+            "tx_serves_every_sendable, transition_sites_are_the_models (+ count_needs_tx_discipline_counterexample showing the "
+            "transmission-count clause needs its TX assumption). The concurrency "
             "clauses of the property — expiry or abandonment while the transmit or receive side is inside its buffer (buffer reuse while "
             "TX reads it, retry while RX copies), over all interleavings — come from the lead's micro-step model (Props/C06Micro.lean) "
             "and are NOT claimed by these theorems. Trusted: Lean kernel; hand translation in Slots.lean incl. the embassy timer's "
@@ -714,11 +746,11 @@ MANIFEST_TEXT["C17"] = {
             "mix): delay_monotone (ALL inputs: delays of DC devices never decrease); parent_is_true_parent_partial (every tree with "
             "no junction inside a non-last branch of another junction: run succeeds, parent = physical upstream neighbour, every port's "
             "downstream = the device plugged in; induction over the tree, unbounded size/depth); chain_delay_exact_partial (pure "
-            "chains, all DC, symmetric forwarding: delay i = arrival i - arrival 0) and chain_delay_formula (what is computed on any "
+            "chains on any ports, DC devices contiguous, symmetric forwarding: delay of every DC device = arrival - arrival of the first DC device) and chain_delay_formula (what is computed on any "
             "chain incl. the floor(./2) rounding and the non-DC case); offset_wrapping/offset_checked/offset_formula (0x0920 = now - "
             "latched receive time as two's-complement i64, 0x0928 = delay, for exactly the DC devices, in order); "
             "first_dc_is_reference; inconsistent_is_error_partial (arbitrary reports with >= 1 open port each: the only possible panic "
-            "is 'no free ports on parent'); valid_tree_no_panic. Seven known findings, each with a decide-checked counterexample "
+            "is 'no free ports on parent'; inconsistent_is_error_configure_dc: same for the whole configure_dc in release builds); valid_tree_no_panic. Seven known findings, each with a decide-checked counterexample "
             "theorem and a harness key (nested junctions x2, no open port, over-subscribed junction, non-DC gap, 32-bit wrap inside a "
             "device, i64 overflow in debug builds).",
     "note": "Trusted: Lean kernel; hand translation of dc.rs/ports.rs (validated by running the real assign_parent_relationships "
@@ -727,3 +759,272 @@ MANIFEST_TEXT["C17"] = {
             "but proved only as far as monotonicity; exactness is proved for chains.",
     "technique": "Lean 4 proof (tree induction with a times-erasing simulation; chain induction on the real loop) + differential correspondence + independent physical oracle",
 }
+
+
+PROPS["C15"] = {
+    "lean_modules": ["EcModel.Props.C15"],
+    "harness": ["c15"],
+    "both_profiles": True,
+    "t1_facts": ["coe:"],
+    "known_keys_expected": ["c15/segment-response-scs0", "c15/segment-data-offset", "c15/segmented-initiate-data-ignored",
+                            "c15/emergency-not-reported", "c15/word-array-buffer", "c15/write-zero-length"],
+    "modelled": "the client model of C16 (mailbox/coe/mod.rs, services.rs, headers.rs, mailbox/mod.rs, SubDevice::mailbox_counter, "
+                "ReceivedPdu::trim_front) run against a SPECIFICATION CoE server (EcModel/CoeServer.lean, written from ETG1000.6 "
+                "5.6.2 / SOEM / IgH, not from /repo): dictionary incl. complete access, expedited / normal / segmented upload with free "
+                "choice of the data carried by the initiate response and of every segment size, expedited download, abort, emergency, "
+                "toggle check, server-side mailbox counter",
+    "rule": "the REAL sdo_read / sdo_write / sdo_read_array / sdo_write_array run against the simulator's honest CoE server and, for "
+            "non-uniform segment-length patterns, against a second reference server written independently in c15.rs (its replies fed "
+            "through the scripted-reply hook): every object size 0..512 (thorough: each size x 6 mailboxes x 5 server choices; quick: "
+            "stride 7 above 24) x modes auto / never-expedited / segmented with 0..room bytes in the initiate response x command "
+            "specifier 0 and 3 in segment responses; ALL compositions of 1..11 (quick 1..7) segment bytes for small objects, random "
+            "patterns incl. <7-byte segments for large ones; mailboxes 16..1024; destinations u8/u16/u32/u64, [u8;N], [u16;N], "
+            "heapless::String<N>, heapless::Vec<u8,N> against objects of exactly / less / more bytes; complete access; all 30 named "
+            "abort codes + unknown ones for read and write; emergencies; unknown objects; 0..10 stale messages (valid-looking, "
+            "emergency, garbage) in the OUT mailbox; values of 0..5 bytes written to objects of equal / other length; arrays of "
+            "u8/u16/u32 with MAX_ENTRIES 4/8/255; responses for a foreign index / sub-index; a 'compensating' device isolating the "
+            "initiate-data defect. Compared with drv_c15 (client model on the specification server described by the same line): "
+            "result, counter, mailbox reads, every request image, final dictionary. Monitors: byte-compare against the dictionary, "
+            "expected error kinds with their fields, download request bytes, dictionary after writes, counter sequence. non-trivial = "
+            "case whose value / dictionary matched the oracle; distinct = distinct case line",
+    "assumptions": [
+        "every register / mailbox datagram is answered (PDU-level failures are C06/C11)",
+        "the server specification is the builder's reading of ETG1000.6 5.6.2 (the document is not available in the sandbox), "
+        "cross-checked against SOEM ecx_SDOread/ecx_SDOwrite and IgH ec_fsm_coe; in particular: the initiate response of a segmented "
+        "upload MAY carry the first part of the data (SOEM and IgH copy length-10 bytes from it; the Beckhoff slave stack fills it)",
+        "sdo_read_exact is proved for expedited and normal uploads only; EVERY segmented upload fails on the current code "
+        "(known findings c15/segment-response-scs0, c15/segment-data-offset, c15/segmented-initiate-data-ignored)",
+        "normal-mode theorems need destination buffer >= object (T::buffer().len(): N bytes for [u16;N], known finding c15/word-array-buffer)",
+        "sdo_write_delivers / array_helpers_consistent: values of 1..4 bytes, plain (not complete-access) downloads, at most 10 stale messages",
+        "emergency_reported has no true instance on the current code (known finding c15/emergency-not-reported)",
+    ],
+}
+
+MANIFEST_TEXT["C15"] = {
+    "text": "Theorems about the client model run against a specification CoE server with free choices, for all dictionaries, object "
+            "bytes, indices, counters, mailbox sizes 16..65535, up to 10 arbitrary stale messages: sdo_read_exact_partial (expedited "
+            "and normal uploads deliver exactly the object's bytes to the decoder), sdo_write_delivers (request bytes = index, "
+            "sub-index, size field, data; dictionary afterwards), array_helpers_consistent (sdo_write_array then sdo_read_array "
+            "round-trips, count in sub-index 0; by induction over the elements), abort_reported (read and write, any code incl. "
+            "unknown object), wrong_object_reported, too_long_reported (normal and segmented, any initiate payload), counter_cycles "
+            "(k-th request of any entry point carries (c0-1+k) mod 7 + 1, any device). Counterexample theorems for every clause that "
+            "fails. Tied to the code by the C16 correspondence of the same model plus honest-server runs of the real code against two "
+            "independent servers.",
+    "note": "PARTIAL: segmented uploads never work on the current code (three independent defects), emergencies are never reported "
+            "as such, [u16;N] destinations are refused in normal mode, zero-length writes are sent as 4 bytes — six known findings, "
+            "each with a counterexample theorem and a replayed witness. Trusted: Lean kernel; hand translation (validated by C15+C16 "
+            "correspondence); the server specification (reading of ETG1000.6 cross-checked with SOEM/IgH; the simulator's server and "
+            "a second reference server agree with it on all generated cases).",
+    "technique": "Lean 4 proof (symbolic evaluation of the client on specification replies, induction over arrays / loops) + "
+                 "differential correspondence against two independent servers",
+}
+
+
+# ---- lead: C01, and the concurrency clauses of C06 (micro-step model + baton scheduler) ----------
+PROPS["C01"] = {
+    "lean_modules": ["EcModel.Props.C01", "EcModel.Props.C01View"],
+    "harness": ["c01"],
+    "drivers": {"c01": "drv_micro"},
+    "t1_facts": ["FrameState", "transition", "FIRST_PDU_EMPTY"],
+    "modelled": "PduRx::receive_frame + frame_index_by_first_pdu_index (status read before marker), claim_receiving, mark_received, "
+                "ReceiveFrameFut::poll (waker registration before the RxDone test), ReceivedFrame::{first_pdu,into_pdu_iter,drop}, "
+                "ReceivedPdu::{deref,trim_front,len} and every other shared access of src/pdu_loop/** at yield-site granularity (Micro.lean), "
+                "plus the whole-call storage model (Slots.lean) for the delivery and view theorems",
+    "rule": "corpus first (schedules that exposed since-repaired defects: drop order, view not owning its frame, trim_front), then plans "
+            "of 1-3 application threads (1-2 requests each, 1-3 datagrams, poll until complete, read through first_pdu / iterator / "
+            "views with trims, a nested request issued while a view is held), one TX and one RX thread (responses in transmission order, "
+            "duplicates, noise; arrival before the first poll happens by schedule) over 1/2/4 slots, 1-4 baton schedules per plan "
+            "(bursts of 0-40 steps); after EVERY shared access the hash of the full storage snapshot must equal the Lean micro-step "
+            "model's; monitors on the real run: every view/iterator read equals the bytes the wire returned for that request's datagrams "
+            "(after trims), a response accepted before a poll completes that poll, a genuine response to an outstanding request is never "
+            "rejected, access windows never overlap, every slot free after drain. non-trivial = a response was accepted; distinct = "
+            "distinct (plan, schedule)",
+    "assumptions": [
+        "fewer than 256 datagram indices are allocated while a request is outstanding (the property's own assumption; hypothesis of scan_finds_owner / deliver_exact via fresh_idx_distinct)",
+        "no deadline expires for the request under observation (C06)",
+        "sequentially consistent interleavings at yield-site granularity; memory Ordering arguments and buffer tearing are not modelled",
+    ],
+}
+PROPS["C06"]["lean_modules"].append("EcModel.Props.C06Micro")
+PROPS["C06"]["harness"].append("c06m")
+PROPS["C06"]["drivers"]["c06m"] = "drv_micro"
+PROPS["C06"]["known_keys_expected"] = ["c06m/two-parties@store-over-inside"]
+PROPS["C06"]["rule"] += (" || concurrency clauses (c06m): plans as for C01/C02 plus retry budgets 0-2, the virtual clock advanced past or short of "
+                         "deadlines between any two shared accesses, futures dropped at arbitrary points, partial/failed sends; every step's "
+                         "snapshot compared with the micro-step model; monitors: retransmissions byte-identical, access windows disjoint, "
+                         "no panic in TX/RX, every slot free after drain; a symptom seen in a run in which a plain store overwrote "
+                         "Sending/RxBusy is attributed to that cause (key suffix @store-over-inside)")
+MANIFEST_TEXT["C01"] = {
+    "text": "deliver_exact: for any storage (any slot count, any other requests in flight) a response whose first datagram matches the "
+            "owner's first index lands in the owner's slot, the owner's poll completes and first_pdu yields exactly the returned data and "
+            "working counter, all other slots untouched; scan_finds_owner: the RX lookup, with its two loads per slot interleaved with "
+            "arbitrary changes by other tasks, returns the owner's slot (scan_marker_first_counterexample shows the opposite load order "
+            "fails); no_lost_wakeup over every interleaving of poll with mark_received; first_pdu_validates; view_trim_suffix; "
+            "view_stable (C01View, from the ownership invariant J of C03): no operation of any other handle changes the bytes a held "
+            "view denotes. Tied to the code by the micro-step model diffed after every shared access under controlled schedules.",
+    "note": "Trusted: Lean kernel; hand translation (validated per step on the schedules run); the index-window assumption enters as a "
+            "hypothesis (distinct first indices of outstanding requests); sequential consistency only; weak-memory behaviour not covered.",
+    "technique": "Lean 4 proof (storage-model lemmas, interleaving enumeration for the handshake, induction for the scan) + schedule-controlled differential correspondence",
+}
+MANIFEST_TEXT["C06"]["note"] += (" Concurrency clauses (lead, Props/C06Micro.lean on the status-protocol automaton): abandon_safe_partial, retry_is_safe, "
+                                 "stale_tx_cannot_resurrect, heals_after_stale_party_finishes proved; the full 'safe while TX/RX is inside' clause is false of the code "
+                                 "(abandon_inside_tx/rx_counterexample) and carried as known findings c06m/*@store-over-inside, replayed on the real code by the baton scheduler.")
+
+PROPS["C07"] = {
+    "lean_modules": ["EcModel.Props.C07"],
+    "harness": ["c07"],
+    "both_profiles": True,
+    "t1_facts": ["txrx:", "LEN_MASK", "ETHERCAT_ETHERTYPE", "MAINDEVICE_ADDR", "command constant", "Command::code"],
+    "known_keys_expected": ["c07/wkc-sum-overflow", "c07/sync-no-reference-deadlock"],
+    "modelled": "SubDeviceGroup::{tx_rx, tx_rx_sync_system_time, tx_rx_dc (up to CycleInfo.dc_system_time), "
+                "process_received_pdi_chunk}, push_state_checks (incl. the 129-per-frame cap), the u16/u32 additions in both "
+                "overflow modes, the re-entrant image lock of tx_rx_sync_system_time, on top of the C04 model of "
+                "CreatedFrame::{push_pdu, push_pdu_slice_rest, can_push_pdu_payload, mark_sendable}; the network is a list of "
+                "answer frames, each a list of (data, working counter) as ReceivedPduIter yields them",
+    "rule": "one case = one cycle of the real code: variant x frame size x pdi_start x image bytes x read_pdi_len x SubDevice addresses "
+            "x initial PDU index x answers; compared with drv_c07: every transmitted frame byte for byte, the image after the cycle, the "
+            "TxRxResponse (working counter, states, time) or error kind / panic / hang. Paths: (raw) group built by the verif::txrx hook "
+            "for every split of images of 0..8 bytes and random images up to 640 bytes at every frame size 30..200 and a stride up to "
+            "1514 (quick: stride), answered by a scripted responder with arbitrary logical memory, working counters (incl. 0x8000/0xffff), "
+            "AL status bytes, clock values, and 1 case in 8 with a missing/short/long/extra datagram or a lost answer; (sim) real "
+            "MainDevice::init -> [configure_dc_sync] -> into_op on simulated segments of 0..16 devices with random PDO sizes (images "
+            "0..~700 bytes), then cycles on a second MainDevice with the frame size under test, random device input memory and AL states, "
+            "image read back through io_raw/inputs_raw/outputs_raw; (corpus) boundary cases incl. both known-finding witnesses, the "
+            "129-check cap (140 SubDevices, 2000-byte frames), sub-minimum frame sizes, a window leaving the address space. "
+            "non-trivial = cycle of at least two frames; distinct = distinct case line",
+    "assumptions": [
+        "frame size between 30 (50 for the clock variants) and 2063 bytes; logical window inside the 32-bit address space; "
+        "read_pdi_len <= pdi_len <= MAX_PDI (established by configure_fmmus); #SubDevices <= MAX_SUBDEVICES",
+        "a free frame slot exists when the loop allocates one (one slot suffices for a single cycle; C03)",
+        "theorems about what came back (inputs_land, wkc_sum_partial, states_in_group_order, dc_time) assume every frame is answered "
+        "datagram for datagram with data of the requested length; other answers are covered by the model and the tie, and by "
+        "no_error_when_answered / outputs_untouched / each_frame_fits which hold for every answer",
+        "ReceivedPduIter is modelled as yielding the answer's datagram list (its byte-level parsing is C01/C05); "
+        "CycleInfo arithmetic after the tx_rx_dc loop is C18",
+    ],
+}
+
+MANIFEST_TEXT["C07"] = {
+    "text": "Theorems about the fuel-driven model of the three cycle loops, for every image length/content, every read/write split, every "
+            "SubDevice list, every frame size 30 (50 with clock datagram)..2063, every start index, both overflow modes and every list of "
+            "answers: lrw_tiles (LRW (address,length) pairs tile [pdi_start, pdi_start+pdi_len) contiguously, each non-empty), "
+            "image_sent_once (their data concatenated is the image as written), each_frame_fits (every frame is the C04 encoding of its "
+            "datagrams, non-empty, <= frame size), dc_first_once + dc_time (exactly one FRMW to the reference at 0x0910 with 8 zero bytes, "
+            "first in the first frame; reported time = its answer), inputs_land, outputs_untouched, wkc_sum_partial, "
+            "states_in_group_order, frame_count_bound (<= ceil(pdi_len/(cap-28)) + ceil(n/min((cap-16)/14,129)) [+1 clock]), terminates "
+            "(fuel pdi_len+n+2 never exhausted), no_error_when_answered. Proved by an invariant over the loop (induction on fuel) on top "
+            "of the C04 frame invariant. Tied to the code by regenerated constants/statement shapes and by diffing frames, image and "
+            "result of the real cycle (hook-built groups and groups from the real init on the simulated segment) against the model.",
+    "note": "PARTIAL: (1) wkc_sum holds only if the sum fits u16 (wkc_sum_partial); the unchanged code panics in builds with overflow "
+            "checks / wraps without on lrw_wkc_sum += wkc (wkc_sum_counterexample, wkc_sum_full_false; known finding "
+            "c07/wkc-sum-overflow). (2) tx_rx_sync_system_time terminates only with a DC reference (sync_terminates_partial); without "
+            "one it calls tx_rx while holding the image write lock and never returns (sync_terminates_counterexample; known finding "
+            "c07/sync-no-reference-deadlock, replayed every run on the real spin lock in a child process and on a deadlock-detecting "
+            "lock for every generated case). Trusted: Lean kernel; hand translation (validated on the generated cases only); answers "
+            "abstracted to datagram lists; alloc_frame assumed to succeed.",
+    "technique": "Lean 4 proof (loop invariants by induction on fuel, refinement to an arithmetic plan per pass, reuse of the C04 frame "
+                 "invariant) + differential correspondence (hook-built groups, real init on a simulated segment) + independent monitors",
+}
+
+PROPS["C13"] = {
+    "lean_modules": ["EcModel.Props.C13"],
+    "harness": ["c13"],
+    "both_profiles": True,
+    "t1_facts": ["eeprom:"],
+    "known_keys_expected": ["c13/panic-category-add", "c13/panic-category-mul", "c13/panic-new-mul", "c13/panic-new-add",
+                            "c13/panic-size-add", "c13/panic-size-mul", "c13/panic-skip_ahead_bytes-add",
+                            "c13/panic-read_byte-add"],  # c13/hang-category-walk shows in the release profile (thorough) only
+    "modelled": "SubDeviceEeprom::{category, start_at, station_alias, size, identity, mailbox_config, general, sync_managers, "
+                "fmmus, fmmu_mappings, pdos, find_string, device_name, device_description, items}, CategoryIterator::{next, "
+                "next_sub_item}, EepromRange::{new, skip_ahead_bytes, read_byte, Read::read}, embedded-io-async read_exact, the "
+                "derived wire parsers of SyncManager/Pdo/PdoEntry/FmmuEx/DefaultMailbox/SiiGeneral and their enums/bitflags; "
+                "every unchecked u16 +/* through add16/mul16 in checked (panic) and wrapping mode; trace! arguments evaluated as "
+                "in the no_std build; provider calls counted; loops with explicit fuel (category walk: 65536*32+8)",
+    "rule": "adversarial corpus (the byte-exact witnesses of the Lean counterexample theorems; blank/zero images of 0..2048 "
+            "bytes with ff/00/wrap fill; first category length 0xFFFF/0xFFFE/0x8000/0x7FFF/... x 6 types; wrap-to-self, two-cycle "
+            "and periodic images; size words 510..0xFFFF; string index one past the table; string lengths overrunning the "
+            "category; empty categories at words 0x7FFA..0x7FFD; 255x255-bit PDOs, 65 PDOs, missing PDO entries; 9 SMs / 17 "
+            "FMMU_EX / 20 FMMUs; 31/32/33 empty categories), random byte images 0..2048 bytes, device descriptions encoded and "
+            "then mutated 0-2 times (byte flips, extreme / near-miss length words, changed types, truncation, erased runs), a few "
+            "images beyond 64 KiB; chunk size 4 and 8; per image 24 queries (alias, size, identity, mailbox, general, SMs, FMMUs, "
+            "FMMU_EX, TX/RX PDOs, 8 category searches, 5 string lookups with N in {4,16,64,128,255}, name, description). The REAL "
+            "parsers run on an in-memory provider with a provider-call cap (outcome `hang`), one catch_unwind per query; compared "
+            "with the model: value/error token, panic site (<enclosing fn>:<add|mul|...>) and provider-call count. Dev profile "
+            "and (thorough) release profile. non-trivial = image with >= 3 distinct outcome classes; distinct = distinct image",
+    "assumptions": [
+        "provider serves 4 or 8 bytes per read_chunk (theorems: >= 4) and never fails; device memory holds bytes (< 256)",
+        "the no_std build configuration (no log/defmt): fmt::trace!(..) evaluates its arguments, which makes `word_addr * 2` in "
+        "category() an overflow site; with the `log` feature that site is silent and the walk goes on to category:add / new:mul",
+        "at most two hanging queries per image and 60 hanging images are handed to the model in a release run (2 M model "
+        "iterations each); every image is still monitored on the real code",
+        "the configuration arithmetic that consumes PDO bit lengths (configure_pdos_*, increment_byte_aligned) is not covered "
+        "by this check: it needs a MainDevice + simulated segment (see level_note)",
+    ],
+}
+
+MANIFEST_TEXT["C13"] = {
+    "text": "A Hoare-style calculus on the cost-counting model (Tri: provider calls <= B, runs out of fuel only if allowed, panics "
+            "only at listed sites, postcondition) with one lemma per translated function, for ARBITRARY memories, both chunk sizes "
+            "and both build modes. Theorems: eeprom_queries_total_checked (every query terminates within an explicit bound and "
+            "returns value/absent/error or panics at one of eight u16 overflow sites and nowhere else), "
+            "eeprom_queries_never_panic_wrapping (release builds never panic; all loops but the category walk bounded), "
+            "eeprom_queries_total_partial (if no category search overflows, release builds terminate within the tight bound and "
+            "never panic; uses category_agree: checked run panic-free => wrapping run identical), access_bound (category search "
+            "<= 32737 calls, every query <= 184801), collections_bounded (lists <= heapless capacity, strings <= N). The full "
+            "statement is false of the code: one counterexample theorem per defect class with a concrete image "
+            "(category_len_overflow, size_overflow, category_beyond_32k, found_category_overflow, skip_overflow, "
+            "read_byte_overflow, and category_wrap_hang: for EVERY fuel the release walk is still running).",
+    "note": "Trusted: Lean kernel; hand translation (which operations can panic, evaluation order) validated by diffing outcome, "
+            "panic site and provider-call count on ~1.2 k (quick) / ~15 k (thorough) images per profile. Known findings (not "
+            "repaired): eight overflow panics in debug builds and a non-terminating category walk in release builds. Not "
+            "covered: configure_pdos_* / increment_byte_aligned arithmetic on PDO bit sums (u16 .sum(), * oversampling, "
+            "(bits+7)/8) — modelled by nobody yet; init on a simulated device carrying the image is C09's harness.",
+    "technique": "Lean 4 proof (Hoare calculus over a total model with explicit panic/fuel outcomes, both overflow modes) + differential correspondence",
+}
+
+PROPS["C12"] = {
+    "lean_modules": ["EcModel.Props.C12"],
+    "harness": ["c12"],
+    "both_profiles": True,
+    "t1_facts": ["eeprom:"],
+    "known_keys_expected": ["c12/odd-length-truncated", "c12/range-beyond-64k", "c12/category-beyond-64k",
+                            "c12/size-overflow", "c12/find-string-one-past"],
+    "modelled": "EepromRange::{new, Read::read, read_byte, skip_ahead_bytes}, embedded-io-async read_exact, "
+                "SubDeviceEeprom::{start_at, category, items, find_string, sync_managers, fmmus, fmmu_mappings, pdos, "
+                "mailbox_config, general, identity, size, device_name, device_description}, the derived wire parsers of the SII "
+                "structs; byte layouts, category numbers, capacities and fixed word addresses regenerated from /repo",
+    "rule": "range reads: ALL (start word, length) windows over images of 0..16 words x chunk 4/8 x fill ff/00/wrap, each with "
+            "single reads of exactly/less/more than the window, read_exact of n and n+1, a random schedule of partial reads, "
+            "byte-wise reads, and the same through start_at with every (odd and even) byte length; random windows over 128 B .. "
+            "512 KiB images incl. words 0x7ff0..0x8010 and 0xfff0..0xffff; mixed read/read_exact/read_byte/skip sequences. "
+            "parsers: images encoded from random device descriptions (0..50 strings of 0..255 bytes incl. NUL and non-ASCII, "
+            "0..8 SMs, 0..16 FMMUs, 0..16 FMMU_EX, 0..64 PDOs x 0..255 entries, optional categories in random order, 0..3 unknown "
+            "categories interleaved, size word 0..4095, odd bodies padded with 00/ff, with/without End marker; a few padded to "
+            "their declared size), 31 queries each; an independent reading of ETG2010 (harness/src/eeprom_gen.rs Oracle) "
+            "says what each query must return. Compared with the model: every answer token and provider-call count. "
+            "non-trivial = all-ranges case / device with >= 3 categories; distinct = distinct image",
+    "assumptions": [
+        "provider serves at least 2 bytes per read_chunk (real devices: 4 or 8) and never fails",
+        "range theorems are for windows whose end is below byte 65536 (EepromRange's u16 cursor); beyond: known finding",
+        "round trips are for well-formed images below 64 KiB with fewer than 32 empty categories before the one searched for "
+        "(the code's blank-EEPROM heuristic)",
+    ],
+}
+
+MANIFEST_TEXT["C12"] = {
+    "text": "range_read_exact: for every memory, chunk size >= 2, build mode, window (any cursor parity, end < 64 KiB) and ANY "
+            "sequence of partial reads, each call returns exactly the stored bytes [pos, pos+k) with k = min(requested, end-pos), "
+            "never an error or panic; range_read_contiguous (all calls together return one contiguous prefix of the window, "
+            "nothing from end on); range_window_partial (+ range_window_counterexample: words >= 0x8000); "
+            "read_raw_exact_partial (+ read_raw_odd_counterexample: start_at halves the byte length, odd lengths lose the last "
+            "byte, eeprom_read::<u8> always fails). Parser side: see the theorems listed in evidence (category_found, parse/encode "
+            "round trips). Tied by regenerated layouts/constants and by diffing every answer of the real parsers against the "
+            "model and against an independent ETG2010 oracle on generated device descriptions.",
+    "note": "Trusted: Lean kernel; hand translation (validated on generated cases); the oracle's reading of ETG2010. Known "
+            "findings (not repaired): odd byte lengths truncated by start_at; windows/categories beyond byte 65535 unreachable "
+            "(panic in debug, wrong bytes in release); size() overflows from 512 Kbit; find_string accepts index = count + 1.",
+    "technique": "Lean 4 proof (loop invariants over chunk assembly; walk induction over encoded categories) + differential correspondence",
+}
+
+# checks that are registered but not yet passing end-to-end are not claimed in MANIFEST.json
+NOT_READY = {"C20": "check still being built in this session (quick tier currently exceeds its time budget)"}
